@@ -166,6 +166,10 @@ def core_models(tier, d):
                                      prelude="shell", max_ops=6 + (3 if quick else 4)), 1, None, 3000),
         ("n3_weakgarbage", "MC_GcHeap", hc("pairs", n_obj=3, finalize=False, drop=False, budgets=(1,), grans=("P1",),
                                            prelude="weakgarbage", max_ops=6 + (3 if quick else 4)), 1, None, 3000),
+        ("n3_weakchain", "MC_GcHeap", hc("pairs", n_obj=3, finalize=True, drop=False, budgets=(1,), grans=("P1",), debt_calls=False,
+                                         prelude="weakchain", max_ops=5 + (2 if quick else 3)), 1, None, 3000),
+        ("n3_mixed", "MC_GcHeap", hc("pairs", n_obj=3, finalize=False, drop=True, budgets=(1, 2), grans=("P1",),
+                                     prelude="mixed", max_ops=5 + (2 if quick else 3)), 1, None, 3000),
         ("n3_chain", "MC_GcHeap", hc("pairs", n_obj=3, finalize=False, drop=False, budgets=(1,), grans=("P1",),
                                      prelude="chain", max_ops=4 + (2 if quick else 4)), 1, None, 3000),
         # (5) two arenas on one thread (C20): interleavings of a reduced menu
@@ -353,6 +357,23 @@ def check_core(prop, tier):
         # "after the unwind is caught the arena continues to satisfy C01-C05": the same rules, on
         # the executions that contain injected faults
         viols += [v for v in m["viol"] if v["prop"] in ("C01", "C02", "C03", "C04", "C05") and v["source"].startswith("n2_faults")]
+    sat_new = 0
+    sat_cov = None
+    if prop == "C11":
+        # "... if an element constructor passed to a slice builder panics at any index ... an abandoned builder
+        # destructs exactly the parts that were initialised": the builder life cycles of Builder.tla (satellite of C18)
+        import engines_sat
+        sc = engines_sat.sat_collect("C18")
+        os.makedirs(os.path.join(WORK, "replays"), exist_ok=True)
+        for x in sc["viols"][:6]:
+            rec = sc["recs"][x["index"] - 1] if 0 < x["index"] <= len(sc["recs"]) else None
+            path = os.path.join(WORK, "replays", f"C11_builder_{x['index']}_{x['rule'].replace(':', '-')}.json")
+            json.dump({"property": "C11", "sat_property": "C18", "engine": "sat", "rule": f"C18.{x['rule']}", "record": rec, "detail": x},
+                      open(path, "w"), indent=1)
+            print(f"VIOLATION property=C11 replay={path}")
+        sat_new = len(sc["viols"])
+        sat_cov = {"builder_life_cycles_executed": len(sc["recs"]), "builder_violations": sat_new,
+                   "builder_model_states": sc["model"]["tlc"]["distinct"]}
     tool = [v for v in m["viol"] if v["prop"] == "TOOL"]
     if tool:
         raise ToolError(f"monitor could not interpret the trace: {tool[:2]}")
@@ -384,9 +405,11 @@ def check_core(prop, tier):
         "shared_run_memoised": res.get("memoised", False), "shared_run_wall_s": res["wall_s"],
         "checker_cmd": "tlc MC_GcHeap.tla (model) ; gcv-harness replay ; tlc GcMonitorTrace.tla (trace validation)",
     }
+    if sat_cov:
+        cov["slice_builder_faults"] = sat_cov
     level = "exploration" if prop == "C20" else "model_checking"
-    write_evidence(prop, tier, level, cov, CORE_ASSUMPTIONS, time.time() - t0, len(viols))
-    return 1 if new else 0
+    write_evidence(prop, tier, level, cov, CORE_ASSUMPTIONS, time.time() - t0, len(viols) + sat_new)
+    return 1 if (new or sat_new) else 0
 
 
 def count_nontrivial(beh_files):
